@@ -625,10 +625,16 @@ class ASTListener(ModelicaListener):
         # (ComponentRef) object until we can fill it.
         clause.type.__dict__.update(self.ast[ctx.type_specifier()].__dict__)
         if ctx.array_subscripts() is not None:
+            no_own_subscripts = clause.dimensions
             clause.dimensions = [self.ast[ctx.array_subscripts()]]
             for sym in self.comp_clause.symbol_list:
                 s = self.class_node.symbols[sym.name]
-                s.dimensions = clause.dimensions
+                if s.dimensions is no_own_subscripts:
+                    s.dimensions = clause.dimensions
+                else:
+                    # `Real[3] x[2]` declares `Real x[2, 3]`: the symbol's own
+                    # subscripts come first, then those of the clause.
+                    s.dimensions = [s.dimensions[0] + clause.dimensions[0]]
 
         # We make sure that all references to the objects are unique per
         # symbol making copies. Note that if there is only one symbol in the
